@@ -719,11 +719,11 @@ class Expander:
                 spec["desugar_try"] = True
             elif k == "desugar_for":
                 spec["desugar_for"] = True
-            elif k in ("hint", "hint?"):
+            elif k in ("hint", "hint?", "hint_after"):
                 # hint <n> <regex>   + block: proof text (asserts only) spliced before the n-th match of regex in the body
                 # `hint?`: skipped when the anchor is gone (the code is then checked without it)
                 parts = w[1].split(None, 1)
-                spec.setdefault("hints", []).append((int(parts[0]), parts[1].strip(), raw_block(c), k == "hint?"))
+                spec.setdefault("hints", []).append((int(parts[0]), parts[1].strip(), raw_block(c), k == "hint?", k == "hint_after"))
             elif k == "rename_ident":
                 a, b = split_sub(w[1])
                 spec.setdefault("renames", []).append((a, b))
@@ -923,7 +923,7 @@ class Expander:
                         raise LostAnchor("%s: cannot desugar `?` in %s: %s" % (rel, fnid, e))
                     cnt += n
             self.rewrites.append("%s: %d `?` in %s desugared to match/return Err(From::from(e)) (rustc's own desugaring for Result)" % (rel, cnt, fnid))
-        for nth, pat, block, hint_optional in spec.get("hints", []):
+        for nth, pat, block, hint_optional, hint_after in spec.get("hints", []):
             if re.search(r"\b(assume|admit)\s*\(", block):
                 raise ValueError("%s: hint for %s contains assume/admit" % (self.tmpl_path, fnid))
             seen = 0
@@ -934,7 +934,13 @@ class Expander:
                 for m in re.finditer(pat, sg.text):
                     seen += 1
                     if seen == nth:
-                        sg.text = sg.text[:m.start()] + "proof { " + block.replace("\n", " ") + " } " + sg.text[m.start():]
+                        at = m.end() if hint_after else m.start()
+                        flat = block.replace("\n", " ").strip()
+                        if re.match(r"let ghost \w+ = [^;]*;$", flat):
+                            # a ghost snapshot (`let ghost x = <spec expr>;`) must live in the enclosing scope, not in a proof block
+                            sg.text = sg.text[:at] + " " + flat + " " + sg.text[at:]
+                        else:
+                            sg.text = sg.text[:at] + " proof { " + flat + " } " + sg.text[at:]
                         done = True
                         break
                 if done:
